@@ -369,6 +369,7 @@ let trace_preds : (string * (vconfig -> fstep list -> bool)) list = [
   ("c02_prompt", c02_prompt);
   ("c06_stable_plen_ok", c06_stable_plen_ok);
   ("c06_joint_ok", c06_joint_ok);
+  ("c06_rp_exit_ok", c06_rp_exit_ok);
   ("c07_idle_silent_partial", c07_idle_silent_partial);
   ("c17_fin_seq_ok", c17_fin_seq_ok);
   ("c17_peer_fin_ok", c17_peer_fin_ok);
